@@ -6505,7 +6505,9 @@ impl Nudge {
         let mut day_delta = NoUnits::N::<0>();
         let rounded_relative_end =
             if beyond_day_nanos == C(0) || beyond_day_nanos.signum() == sign {
-                day_delta += C(1);
+                // One more day in the direction of the span: for a negative
+                // span that is one day further back.
+                day_delta += NoUnits::rfrom(sign);
                 rounded_time_nanos = mode.round_by_unit_in_nanoseconds(
                     beyond_day_nanos,
                     smallest,
